@@ -14,6 +14,16 @@ CHECKS = {
              text="Input consumption of every explored execution satisfies the look-ahead / in-flight / single-thread / stop clauses of the abstract spec; the growth during the initial dispatch loop (D9) is a recorded known finding.", note=PAR_NOTE),
  "C16": dict(level="model_checking", design="5/C16", technique="TLA+ ParallelAbs clauses (promptness, completion order, overlap rejected, clean abandon) judged by TLC on recorded traces with a scripted consumer (next/close/call-again at every point)",
              text="Generator-mode executions with every consumer decision (next, close, call again) at every point are accepted by the abstract spec.", note=PAR_NOTE),
+
+ "C05": dict(level="fault_enumeration", design="5/C05", technique="TLA+/PlusCal file-system model (CacheFS) checked by TLC with crash and torn-write actions; exhaustive crash-point enumeration of the real code under an LD_PRELOAD interposer with fresh-process recovery",
+             text="Every mutating file-system call of each workload is a crash point (plus torn writes); after each crash three fresh readers (plain, call_and_shelve, expires_after) must get correct values and every final-name file must load. The same crash/recovery histories are model-checked on CacheFS.",
+             note="Trusted base: TLC; fsshim.so sees libc calls under the cache root; crash = process death (no power-loss reordering); pure-Python joblib (numpy absent)."),
+ "C07": dict(level="exploration", design="5/C07", technique="TLA+ transcription of Python's binding rules (ArgBinding) enumerated by TLC; one implementation test of filter_args per state, oracle cross-checked against CPython's real binding",
+             text="Exhaustive over all signatures with <= 4 (quick) / <= 5 (thorough) parameters and all call shapes Python accepts, for plain functions and bound methods, with ignore lists.",
+             note="Trusted base: TLC as enumerator; CPython as second anchor of the oracle (disagreement = machinery failure)."),
+ "C11": dict(level="model_checking", design="5/C11", technique="TLA+/PlusCal CacheFS model of 2-3 concurrent processes checked by TLC; TLC-simulated and pre-emption-bounded schedules replayed on real processes/threads at file-system-call granularity (LD_PRELOAD turn-based scheduler)",
+             text="All interleavings of the model for 2-3 participants are model-checked; on the real code every schedule with <= 2 pre-emptions between two participants (strided in quick), TLC-simulated schedules and random ones are enforced call by call and every participant's result checked.",
+             note="Trusted base: TLC; interleaving granularity = libc file-system calls under the cache root; 2-3 participants."),
 }
 NA_REASON = "check not built yet (construction in progress, see DESIGN.md section 8c build order)"
 M = {"version": 1, "setup_cmd": "make -C /verif",
@@ -21,7 +31,8 @@ M = {"version": 1, "setup_cmd": "make -C /verif",
                "baseline_off_cmd": "cd /repo && env -u JOBLIB_VERIF_TRACE /venv/bin/python -m pytest -ra -q -p no:cacheprovider --timeout=900 --continue-on-collection-errors",
                "source_commits": [], "add_only": True},
      "engines": [{"name": "tlc", "path": "engine/tlc.py", "serves_properties": sorted(CHECKS), "kind_free_text": "TLC 1.8 runner: model check, simulate, batched trace validation (specs/*.tla)"},
-                 {"name": "parallel-drivers", "path": "harness/pl1.py", "serves_properties": ["C01", "C04", "C09", "C16"], "kind_free_text": "controlled backend + deterministic drivers of the real joblib.Parallel"}],
+                 {"name": "parallel-drivers", "path": "harness/pl1.py", "serves_properties": ["C01", "C04", "C09", "C16"], "kind_free_text": "controlled backend + deterministic drivers of the real joblib.Parallel"},
+                 {"name": "fs-interposer", "path": "harness/fsctl.py", "serves_properties": ["C05", "C11"], "kind_free_text": "LD_PRELOAD interposer + controller: crash injection, torn writes, turn-based scheduling of real processes"}],
      "checks": [], "notes": "see DESIGN.md; KNOWN_FINDINGS.jsonl lists repaired (fixed) and open findings",
      "not_applicable": []}
 for p in props:
